@@ -184,6 +184,22 @@ theorem glob_all (p : Text) : globMatch "**".toList p = some true := by
   have hp : parse "**".toList = some [.recPrefix] := by decide
   unfold globMatch; rw [hp]; simp [matchGlobToks]
 
+/-- a path with EVERY character escaped by a backslash is a glob that matches that path only, whatever characters the path
+    holds (`app/[slug]/x*.py`): an escape never changes meaning, it only removes one -/
+theorem glob_escaped_exact (g p : Text) :
+    globMatch (escapeAll g) p = some true ↔ encode p = encode g := by
+  have hp : parse (escapeAll g) = some (lits g) := by
+    have := parseAux_escaped g [] none []
+    simp only [List.append_nil] at this
+    unfold parse; rw [this]; simp [parseAux]
+  simp only [globMatch, hp, Option.map_some, Option.some.injEq, matchGlobToks, lit_ne, if_false]
+  have := matchToks_lits (encode g) [] (encode p)
+  simp only [List.append_nil, matchToks_nil] at this
+  unfold lits; rw [this]
+  constructor
+  · rintro ⟨q, h1, rfl⟩; simpa using h1
+  · intro h; exact ⟨[], by simpa using h, rfl⟩
+
 /-- an exact path (no wildcard) matches that path only -/
 theorem glob_exact (g : Text) (hg : ∀ c ∈ g, plain c = true) (p : Text) :
     globMatch g p = some true ↔ encode p = encode g := by
